@@ -22,4 +22,28 @@ def jstrs (l : List Str) : Json := Json.arr (l.map jstr).toArray
 
 def utf8 (s : String) : List UInt8 := s.toUTF8.toList
 
+
+/-- answer one protocol line: `{"ok": …}` or `{"err": …}` -/
+def answer (dispatch : String → Json → Except String Json) (line : String) : String :=
+  match Json.parse line with
+  | .error e => (Json.mkObj [("err", Json.str s!"parse: {e}")]).compress
+  | .ok j =>
+    match (do let op ← j.getObjValAs? String "op"; dispatch op j) with
+    | .ok r => (Json.mkObj [("ok", r)]).compress
+    | .error e => (Json.mkObj [("err", Json.str e)]).compress
+
+partial def loop (dispatch : String → Json → Except String Json)
+    (h : IO.FS.Stream) (out : IO.FS.Stream) : IO Unit := do
+  let line ← h.getLine
+  if line.isEmpty then return ()
+  let l := line.trimAscii.toString
+  if !l.isEmpty then out.putStrLn (answer dispatch l)
+  loop dispatch h out
+
+/-- the whole driver: stdin lines → stdout lines -/
+def runLoop (dispatch : String → Json → Except String Json) : IO Unit := do
+  let out ← IO.getStdout
+  loop dispatch (← IO.getStdin) out
+  out.flush
+
 end Capella.Driver
